@@ -43,6 +43,7 @@ func runC09(c *Ctx, r *Report) {
 	r.Rule("C09.R4", "guarded allocation: make / strings.Repeat / string concatenation sized by program values is dominated by the memory guard on that size; a guarded size that is a product of program values is protected against overflow; SizeOk rejects negative sizes")
 	r.Rule("C09.R6", "live figures: the value object.FreeMemory returns is computed from a debug.SetMemoryLimit(-1) query and a runtime.ReadMemStats reading made by that very call, and from no package-level variable")
 	r.Rule("C09.R7", "deadline inheritance: wherever package eval or extensions creates an eval.State (NewBlankState/NewState) in a function that has a running *State at hand, the new state's Context is assigned from a running state's Context")
+	r.Rule("C09.R8", "deadline hand-back: in package extensions, after a store of a deadline-free context (context.WithCancel(context.Background())) into State.Context, every path to a return (followed with correlated tests of state fields against nil) passes another store to State.Context or a defer of a closure that makes one")
 	r.Rule("C09.R5", "recovery: EvalOne defers a recover that resets the state, installs a per-input context from MaxDuration and defers its cancel; the wasm entry passes a depth and a duration limit")
 
 	stateT := c.TypeNamed("eval", "State")
@@ -759,6 +760,163 @@ func (c *Ctx) checkProgramLoopsAndAllocs(r *Report) {
 			r.Undecided("C09.R7: only %d state constructions next to a running state found (EvalString and extendMacroEnv expected)", n7)
 		}
 		r.Floor("C09.R7", 2)
+	}
+	// R8: a callback that takes the deadline away gives one back
+	{
+		stateT := c.TypeNamed("eval", "State")
+		ctxIdx := fieldIndex(stateT, "Context")
+		isCtxStore := func(in ssa.Instruction) (*ssa.Store, bool) {
+			st, ok := in.(*ssa.Store)
+			if !ok {
+				return nil, false
+			}
+			fa, ok := st.Addr.(*ssa.FieldAddr)
+			if !ok || fa.Field != ctxIdx || namedStruct(fa.X.Type()) == nil || namedStruct(fa.X.Type()).Obj() != stateT.Obj() {
+				return nil, false
+			}
+			return st, true
+		}
+		noDeadline := func(v ssa.Value) bool {
+			// extract #0 of context.WithCancel(context.Background()) / context.Background() itself
+			if ex, ok := v.(*ssa.Extract); ok {
+				if call, ok := ex.Tuple.(*ssa.Call); ok && stdName(call) == "context.WithCancel" {
+					if bg, ok := call.Common().Args[0].(*ssa.Call); ok && (stdName(bg) == "context.Background" || stdName(bg) == "context.TODO") {
+						return true
+					}
+				}
+			}
+			if call, ok := v.(*ssa.Call); ok && (stdName(call) == "context.Background" || stdName(call) == "context.TODO") {
+				return true
+			}
+			return false
+		}
+		restores := func(in ssa.Instruction, skip *ssa.Store) bool {
+			if st, ok := isCtxStore(in); ok && st != skip {
+				return true
+			}
+			if d, ok := in.(*ssa.Defer); ok {
+				if mc, ok := d.Call.Value.(*ssa.MakeClosure); ok {
+					if cf, ok := mc.Fn.(*ssa.Function); ok {
+						found := false
+						eachInstr(cf, func(x ssa.Instruction) {
+							if _, ok := isCtxStore(x); ok {
+								found = true
+							}
+						})
+						return found
+					}
+				}
+			}
+			return false
+		}
+		// condition key: comparison of a field of the state with nil
+		condKey := func(v ssa.Value) (string, bool, bool) {
+			bin, ok := v.(*ssa.BinOp)
+			if !ok || (bin.Op != token.NEQ && bin.Op != token.EQL) || !isNilConst(bin.Y) {
+				return "", false, false
+			}
+			ld, ok := bin.X.(*ssa.UnOp)
+			if !ok {
+				return "", false, false
+			}
+			fa, ok := ld.X.(*ssa.FieldAddr)
+			if !ok || namedStruct(fa.X.Type()) == nil || namedStruct(fa.X.Type()).Obj() != stateT.Obj() {
+				return "", false, false
+			}
+			return fmt.Sprintf("field%d", fa.Field), bin.Op == token.NEQ, true
+		}
+		n8 := 0
+		for _, fn := range c.ModuleSSAFuncs() {
+			top := fn
+			for top.Parent() != nil {
+				top = top.Parent()
+			}
+			if top.Pkg == nil || shortPkg(top.Pkg.Pkg) != "extensions" {
+				continue
+			}
+			eachInstr(fn, func(in ssa.Instruction) {
+				s1, ok := isCtxStore(in)
+				if !ok || !noDeadline(s1.Val) {
+					return
+				}
+				n8++
+				// what is known where the deadline is taken away
+				known := map[string]bool{}
+				for _, cc := range controlling(s1.Block()) {
+					if k, neqTrue, ok := condKey(cc.Cond); ok {
+						known[k] = (cc.Edge == 0) == neqTrue // field != nil ?
+					}
+				}
+				type st struct {
+					b *ssa.BasicBlock
+					k string
+				}
+				seen := map[st]bool{}
+				var bad *pathResult
+				var walk func(b *ssa.BasicBlock, from int, known map[string]bool, trail []*ssa.BasicBlock)
+				walk = func(b *ssa.BasicBlock, from int, known map[string]bool, trail []*ssa.BasicBlock) {
+					if bad != nil {
+						return
+					}
+					if from == 0 {
+						key := st{b, fmt.Sprint(known)}
+						if seen[key] {
+							return
+						}
+						seen[key] = true
+					}
+					trail = append(trail, b)
+					for i := from; i < len(b.Instrs); i++ {
+						x := b.Instrs[i]
+						if restores(x, s1) {
+							return
+						}
+						if _, isRet := x.(*ssa.Return); isRet {
+							bad = &pathResult{exit: x, trace: append([]*ssa.BasicBlock{}, trail...)}
+							return
+						}
+						if _, isPanic := x.(*ssa.Panic); isPanic {
+							return
+						}
+					}
+					if ifi, ok := b.Instrs[len(b.Instrs)-1].(*ssa.If); ok {
+						if k, neqTrue, ok := condKey(ifi.Cond); ok {
+							if v, decided := known[k]; decided {
+								edge := 1
+								if v == neqTrue {
+									edge = 0
+								}
+								walk(b.Succs[edge], 0, known, trail)
+								return
+							}
+							for e := 0; e < 2; e++ {
+								nk := map[string]bool{}
+								for kk, vv := range known {
+									nk[kk] = vv
+								}
+								nk[k] = (e == 0) == neqTrue
+								walk(b.Succs[e], 0, nk, trail)
+							}
+							return
+						}
+					}
+					for _, sx := range b.Succs {
+						walk(sx, 0, known, trail)
+					}
+				}
+				walk(s1.Block(), instrIndex(s1)+1, known, nil)
+				desc := "a callback that replaces State.Context by a context without deadline installs another one before it returns"
+				if bad != nil {
+					r.Fail("C09.R8", ssaFuncName(fn), desc, c.Pos(instrPos(bad.exit)), "the callback returns with the deadline-free context still installed (the restore is missing on this path, e.g. it is conditional on the terminal while the replacement is not): everything evaluated after the call ignores the time limit", c.tracePath(bad)...)
+				} else {
+					r.Ok("C09.R8", ssaFuncName(fn), desc, c.Pos(s1.Pos()))
+				}
+			})
+		}
+		if n8 < 2 {
+			r.Undecided("C09.R8: only %d deadline-free context installations found in package extensions (read and run expected)", n8)
+		}
+		r.Floor("C09.R8", 2)
 	}
 	if nLoops < 2 {
 		r.Undecided("C09.R3: only %d program-bounded loops found", nLoops)
